@@ -204,6 +204,37 @@ func c16Derive(c *c16ctx, alphabet map[string]interface{}) {
 			if p2, err := rp.NewPublicChildKey(idx); err != nil || p2.String() != mc.Neuter().String() {
 				r.Failf("bip32.PrivateKey.NewPublicChildKey:wrong", cs, "%s: err=%v", ps, err)
 			}
+			// the same public derivation from a RELOADED parent: a key deserialised from bytes the caller still holds, and a
+			// Clone of it (their slices have spare capacity / share storage with the input) - the results must be the same and
+			// neither the parent key nor the caller's buffer may change
+			if !hardened {
+				engine.Catch(func() {
+					ser := rpub.Serialize()
+					buf := append(make([]byte, 0, len(ser)), ser...)
+					dk, derr := bip32.DeserializePublicKey(buf)
+					if derr != nil {
+						r.Failf("bip32.DeserializePublicKey:round-trip", cs, "%s: err=%v", ps, derr)
+						return
+					}
+					want := mc.Neuter().String()
+					cl := dk.Clone()
+					for _, k := range []*bip32.PublicKey{dk, &cl} {
+						for _, ix := range []uint32{idx, idx ^ 1, idx} {
+							got, e := k.NewPublicChildKey(ix)
+							if ix == idx && (e != nil || got.String() != want) {
+								r.Failf("bip32.PublicKey.NewPublicChildKey:differs-from-public-key-of-private-child:reloaded-parent", cs, "%s: child of the deserialised/cloned parent: err=%v", ps, e)
+							}
+						}
+						if k.String() != rpub.String() {
+							r.Failf("bip32.PublicKey.NewPublicChildKey:mutates-its-parent", cs, "%s: the parent key changed while deriving children: %s, was %s", ps, k.String(), rpub.String())
+						}
+					}
+					if !bytes.Equal(buf, ser) {
+						r.Failf("bip32.PublicKey.NewPublicChildKey:writes-into-the-buffer-the-key-was-deserialised-from", cs, "%s: caller's buffer %x, was %x", ps, buf, ser)
+					}
+					c.out.Add("ckdpub:reloaded-parent")
+				})
+			}
 			// text round trips
 			xprv, xpub := mc.String(), mc.Neuter().String()
 			if pn, pm := engine.Catch(func() {
